@@ -450,6 +450,14 @@ def resize_array(arr, newshp, offset=None, pad_mode='constant', pad_const=0,
         offset = normalized_scalar_param_list(
             offset, out.ndim, param_conv=safe_int_conv, keep_none=False)
 
+    # In resized axes, the smaller array must fit into the larger one
+    for axis, (off, n_orig, n_new) in enumerate(zip(offset, arr.shape,
+                                                    out.shape)):
+        if n_new != n_orig and not 0 <= off <= abs(n_new - n_orig):
+            raise ValueError('in axis {}: `offset` must be between 0 and the '
+                             'size difference {} of the arrays, got {}'
+                             ''.format(axis, abs(n_new - n_orig), off))
+
     # Handle padding
     pad_mode, pad_mode_in = str(pad_mode).lower(), pad_mode
     if pad_mode not in _SUPPORTED_RESIZE_PAD_MODES:
